@@ -24,11 +24,14 @@ import z3
 
 FF = "ioflo/base/framing.py"
 
-classdecl("ActorSlot", fields=dict(is_actor=BOOL, name=STR))
-# value of act.actor: an Actor instance (is_actor, .name) or the not-yet-resolved kind name (name = that string)
-classdecl("OdictObj", fields=dict(share=Ref("Share"), marker=STR))
-# an odict()/dict(): used as a parms record (keys 'share', 'marker') or as the opaque Actor.Registry
-classdecl("Act", fields=dict(actor=Ref("ActorSlot"), parms=Ref("OdictObj"), frame=STR, context=STR))
+classdecl("Act", fields=dict(a_is=BOOL, a_name=STR, p_share=Ref("Share"), p_marker=STR, frame=STR, context=STR))
+# an act: `.actor` is an Actor instance (a_is, its .name = a_name) or the not-yet-resolved kind name (a_name = that
+# string); `.parms` of a marker act is the record {share: p_share, marker: p_marker}.  `.actor` / `.parms` are VIEWS
+# with the act's own reference (no separate heap objects: keeps the path conditions small)
+classdecl("ActorView", fields={})
+classdecl("ParmsView", fields={})
+classdecl("OdictObj", fields=dict(share=Ref("Share"), marker=STR))     # the odict() returned by Actor._resolve
+classdecl("RegistryObj", fields={})                                    # Actor.Registry (opaque membership)
 classdecl("Framer", fields=dict(name=STR, frameNames=Dict(STR, Ref("Frame"))))
 classdecl("Frame", file=FF, fields=dict(name=STR, framer=Ref("Framer"), enacts=List(Ref("Act"))))
 classdecl("NeedAct", fields=dict(frame=Ref("Frame"), human=STR, count=INT))
@@ -43,7 +46,9 @@ REG.assume_note("C20 builder (assumed): self._resolvePath(ipath, warn=True) retu
                 "build new mappings; membership in Actor.Registry is an uninterpreted predicate of the kind name")
 REG.assume_note("C20 builder (assumed structure): an act whose actor is an Actor instance named like a marker kind "
                 "carries parms['share'] (a Share) and parms['marker'] (only NeedMarker._resolve creates such acts); "
-                "self._tracts and the enacts list of the resolved frame are different list objects")
+                "self._tracts and the enacts list of the resolved frame are different list objects; heap typing of "
+                "the pre-state under quantifiers: the elements of the resolved frame's enacts and the shares in "
+                "their parms are pre-state objects")
 
 _REGD = z3.Function("c20_actor_registered", z3.StringSort(), z3.BoolSort())
 
@@ -52,20 +57,23 @@ def _new_obj(E, cls):
     return RefV(E.new_ref(), cls, nn=True)
 
 
+def _act_of(v):
+    return RefV(v.t, "Act", nn=True)
+
+
 @hook("odict", "ctor")
 def _odict_ctor(E, cv, args, kwargs):
     if args or kwargs:
         raise Unsupported("odict(...) with arguments (line %d)" % E.cur_line)
+    if E.frame.qual == "<class>":          # class-level `Registry = odict()`: one object per class, nothing stored
+        return RefV(z3.Int("c20_registry_object"), "RegistryObj", nn=True)
     return _new_obj(E, "OdictObj")
 
 
 def _ext_dict(E, args, kwargs):
     if args or set(kwargs) != {"share", "marker"}:
         raise Unsupported("dict(...) other than dict(share=, marker=) (line %d)" % E.cur_line)
-    o = _new_obj(E, "OdictObj")
-    E.wr_field(o, "share", kwargs["share"])
-    E.wr_field(o, "marker", kwargs["marker"])
-    return o
+    return dict(kwargs)                    # carried as a python-level record until acting.Act(parms=...) stores it
 
 
 @hook("OdictObj", "getitem")
@@ -82,30 +90,48 @@ def _od_set(E, o, idx, v):
     raise Unsupported("parms[%r] = ..." % (idx,))
 
 
-@hook("OdictObj", "contains")
-def _od_contains(E, o, x):
+@hook("RegistryObj", "contains")
+def _reg_contains(E, o, x):
     return _REGD(zstr(x))
+
+
+@hook("Act", "getattr", "actor")
+def _act_actor(E, act):
+    return RefV(act.t, "ActorView", nn=True)
+
+
+@hook("ActorView", "getattr", "name")
+def _actor_name(E, v):
+    return E.rd_field(_act_of(v), "a_name")
+
+
+@hook("Act", "getattr", "parms")
+def _act_parms(E, act):
+    return RefV(act.t, "ParmsView", nn=True)
+
+
+@hook("ParmsView", "getitem")
+def _pv_get(E, v, idx):
+    if idx in ("share", "marker"):
+        return E.rd_field(_act_of(v), "p_" + idx)
+    raise Unsupported("act.parms[%r]" % (idx,))
 
 
 @hook("Act", "ctor")
 def _act_ctor(E, cv, args, kwargs):
-    if args or "actor" not in kwargs or "parms" not in kwargs:
-        raise Unsupported("acting.Act(...) without actor=/parms= keywords (line %d)" % E.cur_line)
+    p = kwargs.get("parms")
+    if args or "actor" not in kwargs or not isinstance(p, dict) or set(p) != {"share", "marker"}:
+        raise Unsupported("acting.Act(...) without actor= / parms=dict(share=, marker=) (line %d)" % E.cur_line)
     act = _new_obj(E, "Act")
-    slot = _new_obj(E, "ActorSlot")
-    E.wr_field(slot, "is_actor", False)
-    E.wr_field(slot, "name", kwargs["actor"])
-    E.wr_field(act, "actor", slot)
-    E.wr_field(act, "parms", kwargs["parms"])
+    E.wr_field(act, "a_is", False)
+    E.wr_field(act, "a_name", kwargs["actor"])
+    E.wr_field(act, "p_share", p["share"])
+    E.wr_field(act, "p_marker", p["marker"])
     return act
 
 
 def _resolve_effect(E, act, args, kwargs):
-    old = E.rd_field(act, "actor")
-    slot = _new_obj(E, "ActorSlot")
-    E.wr_field(slot, "is_actor", True)
-    E.wr_field(slot, "name", E.rd_field(old, "name"))
-    E.wr_field(act, "actor", slot)
+    E.wr_field(act, "a_is", True)          # .actor is now an Actor instance of that kind, .name = the kind name
 
 
 REG.classes["Act"].hooks[("getattr", "resolve")] = opaque_method("Act.resolve", None, _resolve_effect)
@@ -131,8 +157,8 @@ def _mark_super_init(E, selfv, args, kwargs):
 
 def _ext_isinstance(E, args, kwargs):
     v, c = args
-    if isinstance(v, RefV) and v.cls == "ActorSlot" and isinstance(c, ClassV) and c.name == "Actor":
-        return Sym(E.rd_field(v, "is_actor").t, "bool")
+    if isinstance(v, RefV) and v.cls == "ActorView" and isinstance(c, ClassV) and c.name == "Actor":
+        return Sym(E.rd_field(_act_of(v), "a_is").t, "bool")
     if isinstance(c, ClassV) and (isinstance(v, (str, int, float)) or (isinstance(v, Sym) and not isinstance(v.k, tuple))):
         return False     # a str / number is never an instance of a repository class
     return B.py_isinstance(E, v, c)
@@ -188,20 +214,30 @@ def frame_known(E, self_, frame):
 
 def _match(E, act, kind, share, key):
     """the test of the enact loop: Actor instance named `kind`, same share NAME, same marker key"""
-    slot = E.rd_field(act, "actor")
-    parms = E.rd_field(act, "parms")
-    return z3.And(E.rd_field(slot, "is_actor").t, E.rd_field(slot, "name").t == zstr(kind),
-                  E.rd_field(E.rd_field(parms, "share"), "name").t == E.rd_field(share, "name").t,
-                  E.rd_field(parms, "marker").t == zstr(key))
+    return z3.And(E.rd_field(act, "a_is").t, E.rd_field(act, "a_name").t == zstr(kind),
+                  E.rd_field(E.rd_field(act, "p_share"), "name").t == E.rd_field(share, "name").t,
+                  E.rd_field(act, "p_marker").t == zstr(key))
 
 
 @specfunc
 def is_marker_act(E, act, kind, share, key):
     """a resolved marker act of that kind for exactly this share object and key"""
-    slot = E.rd_field(act, "actor")
-    parms = E.rd_field(act, "parms")
-    return Sym(z3.And(E.rd_field(slot, "is_actor").t, E.rd_field(slot, "name").t == zstr(kind),
-                      E.rd_field(parms, "share").t == share.t, E.rd_field(parms, "marker").t == zstr(key)), "bool")
+    return Sym(z3.And(E.rd_field(act, "a_is").t, E.rd_field(act, "a_name").t == zstr(kind),
+                      E.rd_field(act, "p_share").t == share.t, E.rd_field(act, "p_marker").t == zstr(key)), "bool")
+
+
+@specfunc
+def wf_enacts(E, frame):
+    """heap typing of the pre-state, stated under quantifiers (the engine assumes it pointwise on each read): the
+    enacts of the frame are pre-state objects and so are the shares in the parms of pre-state acts"""
+    en = E.rd_field(frame, "enacts")
+    arr = E.larrs(en)[0]
+    j = z3.Int("j!wf%d" % next(E.counter))
+    r = z3.Int("r!wf%d" % next(E.counter))
+    key, _ty = E.fkey("Act", "p_share")
+    ps = E.harr(("f", key, 0), [z3.IntSort()], z3.IntSort())
+    return Sym(z3.And(z3.ForAll([j], z3.Implies(z3.And(j >= 0, j < E.llen(en)), z3.Select(arr, j) > 0)),
+                      z3.ForAll([r], z3.Implies(r > 0, z3.Select(ps, r) > 0))), "bool")
 
 
 @specfunc
@@ -310,7 +346,7 @@ contract(FN, "NeedMarker._resolve", "C20",
          params=dict(self=Ref("NeedMarker"), share=STR, frame=STR, kind=STR, marker=STR),
          inline={"Actor._resolve", "resolveFrameOfFramer", "Mark.__init__"},
          externals={dict: _ext_dict, isinstance: _ext_isinstance, "str.join": _ext_join},
-         assumes=["self._tracts is not %s.enacts" % RF],
+         assumes=["self._tracts is not %s.enacts" % RF, "wf_enacts(%s)" % RF],
          setup=_setup_rshare,
          loops={0: dict(inv=["not found", "no_enact_before(frame, kind, share, marker, _i)"])},
          modifies=["rshare.marks{*}", "self._tracts[*]", "%s.enacts[*]" % RF],
